@@ -157,4 +157,213 @@ Section Schur.
     unfold g. rewrite fdot_comb. unfold fdot at 3. apply sumn_ext. intros l _.
     rewrite (fdot_comm n (fmv n S z)). unfold fdot. ring.
   Qed.
+
+  (* ---- simple kriging: lambda_sk solves Sigma.lambda = sigma0; Var(Z*) = lambda.sigma0 = lambda.Sigma.lambda *)
+  Lemma sk_system i : (i < n)%nat -> fmv n Sigma lam_sk i == sigma0 i.
+  Proof. intro Hi. unfold lam_sk. apply (finv_solves n Sigma S sigma0 i HS Hi). Qed.
+
+  Lemma sk_varz : fdot n lam_sk (fmv n Sigma lam_sk) == fdot n lam_sk sigma0.
+  Proof. apply fdot_ext; intros l Hl; [reflexivity|apply sk_system; exact Hl]. Qed.
+
+  (* ---- universal kriging: lambda_uk . (X mu) = mu . x0 (drift rows), hence the forms of Var(Z*) and of the error variance *)
+  Lemma schur_lam_g : fdot n lam_uk g == fdot p mu x0.
+  Proof.
+    unfold g. rewrite fdot_comb. unfold fdot at 2. apply sumn_ext. intros l Hl.
+    rewrite (fdot_comm n lam_uk (fun i => X i l)). rewrite (schur_drift_rows l Hl). ring.
+  Qed.
+
+  (* KrigingCalcul::_needVarZUK computes lambda^t Sigma lambda; KrigingSystem::_estimateVarZ computes lambda.sigma0 + mu.x0 *)
+  Lemma schur_varz : fdot n lam_uk (fmv n Sigma lam_uk) == fdot n lam_uk sigma0 + fdot p mu x0.
+  Proof.
+    rewrite (fdot_ext n lam_uk lam_uk (fmv n Sigma lam_uk) (fun i => sigma0 i + g i)).
+    - rewrite fdot_add_r. rewrite schur_lam_g. reflexivity.
+    - intros; reflexivity.
+    - intros l Hl. pose proof (schur_cov_rows l Hl) as E. lra.
+  Qed.
+
+  (* KrigingCalcul::_needStdv (UK): sigma00 - lambda.sigma0 + mu.x0 is the variance of the estimation error *)
+  Lemma schur_stdv (sigma00 : Q) :
+    sigma00 - fdot n lam_uk sigma0 + fdot p mu x0 ==
+    sigma00 - 2 * fdot n lam_uk sigma0 + fdot n lam_uk (fmv n Sigma lam_uk).
+  Proof. rewrite schur_varz. ring. Qed.
+
+  (* ---- dual form (KrigingCalcul::_needDual + _needZstar): c = Sigmac Xt S z, b = S z - S X c, Z* = sigma0.b + x0.c *)
+  Definition c_dual (z : fvec) : fvec := fmv p C (fun l => fdot n (fun j => X j l) (fmv n S z)).
+  Definition b_dual (z : fvec) : fvec :=
+    fun i => fmv n S z i - fmv n S (fun j => sumn p (fun l => X j l * c_dual z l)) i.
+
+  Lemma schur_dual z :
+    fsym n S -> fsym p C ->
+    fdot n sigma0 (b_dual z) + fdot p x0 (c_dual z) == fdot n lam_uk z.
+  Proof.
+    intros Ssym Csym.
+    rewrite (schur_estimate z Ssym).
+    set (w := fun l => fdot n (fun j => X j l) (fmv n S z)).
+    (* mu . w = y0 . (C w) = y0 . c *)
+    assert (E1 : fdot p mu w == fdot p y0 (c_dual z)).
+    { unfold mu, c_dual. fold w. symmetry. apply (dual_eq_primal p C y0 w Csym). }
+    rewrite E1.
+    (* y0 . c = x0 . c - sum_k (X_k . lam_sk) c_k *)
+    assert (E2 : fdot p y0 (c_dual z) ==
+                 fdot p x0 (c_dual z) - sumn p (fun k => fdot n (fun i => X i k) lam_sk * c_dual z k)).
+    { unfold fdot at 1 2. rewrite <- sumn_sub. apply sumn_ext. intros k _. unfold y0. ring. }
+    rewrite E2.
+    (* sigma0 . b = sigma0 . (S z) - sigma0 . (S (X c)) *)
+    assert (E3 : fdot n sigma0 (b_dual z) ==
+                 fdot n sigma0 (fmv n S z) - fdot n sigma0 (fmv n S (fun j => sumn p (fun l => X j l * c_dual z l)))).
+    { unfold fdot. rewrite <- sumn_sub. apply sumn_ext. intros i _. unfold b_dual. ring. }
+    rewrite E3.
+    rewrite (dual_eq_primal n S sigma0 z Ssym).
+    rewrite (dual_eq_primal n S sigma0 (fun j => sumn p (fun l => X j l * c_dual z l)) Ssym).
+    fold lam_sk.
+    rewrite (fdot_comb n p lam_sk X (c_dual z)).
+    assert (E4 : sumn p (fun l => fdot n lam_sk (fun i => X i l) * c_dual z l) ==
+                 sumn p (fun k => fdot n (fun i => X i k) lam_sk * c_dual z k)).
+    { apply sumn_ext. intros l _. rewrite (fdot_comm n lam_sk (fun i => X i l)). reflexivity. }
+    rewrite E4. ring.
+  Qed.
+
+  (* ---- (lambda_uk, -mu) solves the standard block system [Sigma X; Xt 0] . [lambda; m] = [sigma0; x0] *)
+  Definition K_block : fmat := fun a b =>
+    if Nat.ltb a n then (if Nat.ltb b n then Sigma a b else X a (b - n)%nat)
+    else (if Nat.ltb b n then X b (a - n)%nat else 0).
+  Definition w_block : fvec := fun a => if Nat.ltb a n then lam_uk a else - mu (a - n)%nat.
+  Definition r_block : fvec := fun a => if Nat.ltb a n then sigma0 a else x0 (a - n)%nat.
+
+  Lemma schur_block_system a : (a < n + p)%nat -> fmv (n + p) K_block w_block a == r_block a.
+  Proof.
+    intro Ha. unfold fmv. rewrite sumn_split.
+    unfold K_block, w_block, r_block. destruct (Nat.ltb a n) eqn:E.
+    - apply Nat.ltb_lt in E.
+      rewrite (sumn_ext n _ (fun l => Sigma a l * lam_uk l)).
+      2:{ intros l Hl. apply Nat.ltb_lt in Hl. rewrite Hl. reflexivity. }
+      rewrite (sumn_ext p _ (fun l => - (X a l * mu l))).
+      2:{ intros l Hl. assert (F : Nat.ltb (n + l) n = false) by (apply Nat.ltb_ge; lia). rewrite F.
+          replace (n + l - n)%nat with l by lia. ring. }
+      pose proof (schur_cov_rows a E) as H. unfold fmv, g in H.
+      assert (E2 : sumn p (fun l => - (X a l * mu l)) == - sumn p (fun l => X a l * mu l)).
+      { rewrite <- (sumn_scal_l p (-(1)) (fun l => X a l * mu l)). apply sumn_ext. intros; ring.
+        setoid_replace (- sumn p (fun l => X a l * mu l)) with (-(1) * sumn p (fun l => X a l * mu l)) by ring. reflexivity. }
+      rewrite E2. lra.
+    - apply Nat.ltb_ge in E.
+      rewrite (sumn_ext n _ (fun l => X l (a - n)%nat * lam_uk l)).
+      2:{ intros l Hl. apply Nat.ltb_lt in Hl. rewrite Hl. reflexivity. }
+      rewrite (sumn_zero p).
+      2:{ intros l Hl. assert (F : Nat.ltb (n + l) n = false) by (apply Nat.ltb_ge; lia). rewrite F. ring. }
+      assert (Hk : (a - n < p)%nat) by lia.
+      pose proof (schur_drift_rows (a - n)%nat Hk) as H. unfold fdot in H. rewrite H. ring.
+  Qed.
 End Schur.
+
+(* ---------------- leave-one-out: uniqueness, and the reduced system written on the indices 0..n-2 ---------------- *)
+Definition skip (i a : nat) : nat := if Nat.ltb a i then a else S a.
+Definition unskip (i l : nat) : nat := if Nat.ltb l i then l else Nat.pred l.
+
+Lemma unskip_skip i a : unskip i (skip i a) = a.
+Proof.
+  unfold skip, unskip. destruct (Nat.ltb a i) eqn:E.
+  - rewrite E. reflexivity.
+  - apply Nat.ltb_ge in E. assert (F : Nat.ltb (S a) i = false) by (apply Nat.ltb_ge; lia). rewrite F. reflexivity.
+Qed.
+Lemma skip_unskip i l : l <> i -> skip i (unskip i l) = l.
+Proof.
+  intro H. unfold skip, unskip. destruct (Nat.ltb l i) eqn:E.
+  - rewrite E. reflexivity.
+  - apply Nat.ltb_ge in E. assert (F : Nat.ltb (Nat.pred l) i = false) by (apply Nat.ltb_ge; lia). rewrite F. lia.
+Qed.
+Lemma skip_neq i a : skip i a <> i.
+Proof. unfold skip. destruct (Nat.ltb a i) eqn:E; [apply Nat.ltb_lt in E|apply Nat.ltb_ge in E]; lia. Qed.
+Lemma skip_lt i a n : (a < n)%nat -> (skip i a < S n)%nat.
+Proof. unfold skip. destruct (Nat.ltb a i); lia. Qed.
+Lemma unskip_lt i l n : (i <= n)%nat -> (l < S n)%nat -> l <> i -> (unskip i l < n)%nat.
+Proof. intros Hi Hl Hne. unfold unskip. destruct (Nat.ltb l i) eqn:E; [apply Nat.ltb_lt in E|apply Nat.ltb_ge in E]; lia. Qed.
+
+Lemma sum_except_skip n i f : (i <= n)%nat -> sumn n (fun a => f (skip i a)) == sum_except (S n) i f.
+Proof.
+  unfold sum_except. induction n as [|n IH]; intro Hi.
+  - assert (E : i = 0%nat) by lia. subst i. cbn [sumn Nat.eqb]. ring.
+  - destruct (Nat.eq_dec i (S n)) as [E|E].
+    + subst i. cbn [sumn]. rewrite Nat.eqb_refl.
+      assert (E1 : Nat.eqb n (S n) = false) by (apply Nat.eqb_neq; lia). rewrite E1.
+      assert (E2 : skip (S n) n = n) by (unfold skip; assert (F : Nat.ltb n (S n) = true) by (apply Nat.ltb_lt; lia); rewrite F; reflexivity).
+      rewrite E2.
+      rewrite (sumn_ext n (fun a => f (skip (S n) a)) (fun l => if Nat.eqb l (S n) then 0 else f l)).
+      * ring.
+      * intros a Ha. unfold skip. assert (F : Nat.ltb a (S n) = true) by (apply Nat.ltb_lt; lia). rewrite F.
+        assert (G : Nat.eqb a (S n) = false) by (apply Nat.eqb_neq; lia). rewrite G. reflexivity.
+    + assert (Hi' : (i <= n)%nat) by lia.
+      change (sumn (S n) (fun a => f (skip i a))) with (sumn n (fun a => f (skip i a)) + f (skip i n)).
+      rewrite (IH Hi').
+      change (sumn (S (S n)) (fun l => if Nat.eqb l i then 0 else f l))
+        with (sumn (S n) (fun l => if Nat.eqb l i then 0 else f l) + (if Nat.eqb (S n) i then 0 else f (S n))).
+      assert (E1 : Nat.eqb (S n) i = false) by (apply Nat.eqb_neq; lia). rewrite E1.
+      assert (E2 : skip i n = S n) by (unfold skip; assert (F : Nat.ltb n i = false) by (apply Nat.ltb_ge; lia); rewrite F; reflexivity).
+      rewrite E2. reflexivity.
+Qed.
+
+Lemma sum_except_ext n i f g : (forall l, (l < n)%nat -> l <> i -> f l == g l) -> sum_except n i f == sum_except n i g.
+Proof.
+  intro H. unfold sum_except. apply sumn_ext. intros l Hl.
+  destruct (Nat.eqb_spec l i) as [E|E]; [reflexivity|apply H; assumption].
+Qed.
+
+Section DubruleUnique.
+  Variable n : nat.
+  Variables K B : fmat.
+  Hypothesis KB : finv n K B.
+  Variable i : nat.
+  Hypothesis Hi : (i < n)%nat.
+  Hypothesis Bii : ~ B i i == 0.
+
+  (* the system deprived of row and column i has no other solution than the weights -B_li/B_ii *)
+  Lemma loo_unique (w : nat -> Q) :
+    (forall j, (j < n)%nat -> j <> i -> sum_except n i (fun l => K j l * w l) == K j i) ->
+    forall l, (l < n)%nat -> l <> i -> w l == loo_w B i l.
+  Proof.
+    intro Hw.
+    set (v := fun l => if Nat.eqb l i then 0 else w l - loo_w B i l).
+    set (c := fmv n K v i).
+    assert (HKv : forall a, (a < n)%nat -> fmv n K v a == (fun k => c * delta k i) a).
+    { intros a Ha. cbv beta. unfold delta. destruct (Nat.eqb_spec a i) as [E|E].
+      - subst a. unfold c. ring.
+      - unfold fmv.
+        rewrite (sumn_ext n _ (fun l => (if Nat.eqb l i then 0 else K a l * w l) - (if Nat.eqb l i then 0 else K a l * loo_w B i l))).
+        2:{ intros l _. unfold v. destruct (Nat.eqb l i); ring. }
+        rewrite sumn_sub.
+        change (sumn n (fun l => if Nat.eqb l i then 0 else K a l * w l)) with (sum_except n i (fun l => K a l * w l)).
+        change (sumn n (fun l => if Nat.eqb l i then 0 else K a l * loo_w B i l)) with (sum_except n i (fun l => K a l * loo_w B i l)).
+        rewrite (Hw a Ha E). rewrite (loo_system n K B KB i Hi Bii a Ha E). ring. }
+    assert (Hv : forall l, (l < n)%nat -> v l == B l i * c).
+    { intros l Hl. rewrite (finv_unique_solution n K B (fun k => c * delta k i) v KB HKv l Hl).
+      unfold fmv. rewrite (sumn_ext n _ (fun k => (B l k * c) * delta k i)) by (intros; ring).
+      apply (sumn_delta_r n i (fun k => B l k * c) Hi). }
+    assert (Hc : c == 0).
+    { pose proof (Hv i Hi) as E. unfold v in E. rewrite Nat.eqb_refl in E.
+      destruct (Qeq_dec c 0) as [Z|NZ]; [exact Z|]. exfalso. apply Bii.
+      assert (P : B i i * c == 0) by (symmetry; exact E).
+      apply Qmult_integral in P. destruct P as [P|P]; [exact P|contradiction]. }
+    intros l Hl Hne. pose proof (Hv l Hl) as E. unfold v in E.
+    assert (F : Nat.eqb l i = false) by (apply Nat.eqb_neq; exact Hne). rewrite F in E. rewrite Hc in E. lra.
+  Qed.
+
+  (* the expressions of KrigingSystem::_estimateCalculXvalidUnique equal kriging from ANY solution of the system without i.
+     y = centred data (zero on the drift equations), m = mean *)
+  Lemma loo_shortcut (w y : nat -> Q) (m : Q) :
+    fsym n K ->
+    (forall j, (j < n)%nat -> j <> i -> sum_except n i (fun l => K j l * w l) == K j i) ->
+    m - sum_except n i (fun j => B i j * (/ B i i) * y j) == m + sum_except n i (fun j => w j * y j) /\
+    / B i i == K i i - sum_except n i (fun l => K i l * w l).
+  Proof.
+    intros Ksym Hw.
+    pose proof (loo_unique w Hw) as U.
+    assert (Bsym : fsym n B) by (apply (finv_sym n K B Ksym KB)).
+    split.
+    - rewrite (sum_except_ext n i (fun j => w j * y j) (fun j => loo_w B i j * ((y j + m) - m))).
+      2:{ intros l Hl Hne. rewrite (U l Hl Hne). ring. }
+      rewrite <- (loo_estimate n B i Hi Bii (fun j => y j + m) m Bsym).
+      apply Qplus_comp; [reflexivity|]. apply Qopp_comp. apply sum_except_ext. intros l _ _. ring.
+    - rewrite (sum_except_ext n i (fun l => K i l * w l) (fun l => K i l * loo_w B i l)).
+      2:{ intros l Hl Hne. rewrite (U l Hl Hne). reflexivity. }
+      symmetry. apply (loo_variance n K B KB i Hi Bii).
+  Qed.
+End DubruleUnique.
